@@ -8,7 +8,7 @@ from fractions import Fraction
 
 from .. import core
 from .. import translate_vocab as TV
-from .c10 import enc, dec, parse_model_rat, parse_model_comp, cmp_comp, show_impl_comp, guarded, Hang, close, to_float
+from .c10 import enc, dec, parse_model_rat, parse_model_comp, cmp_comp, show_impl_comp, guarded, Hang, close, to_float, impl_same
 
 PID = 'C15'
 DRV = 'drv_c15'
@@ -67,6 +67,8 @@ def show_float(fn):
 
 
 def cmp_float(im, m):
+    if not isinstance(im, str) or not isinstance(m, str) or (m.startswith('OK ') and '/' not in m):
+        return impl_same(im, m)
     if im.startswith('OK '):
         if not m.startswith('OK '):
             return False
@@ -84,7 +86,7 @@ def positional(v):
     return isinstance(v, int) or ('e' not in repr(v) and 'n' not in repr(v))
 
 
-def run(chk):
+def _run(chk):
     import peptacular as pt
     from peptacular.chem import chem_util as CU
     from peptacular.mods import mod_db_setup as S
@@ -100,7 +102,9 @@ def run(chk):
     try:
         chk.generated_changed += TV.translate()
     except TV.TranslateError as e:
-        raise core.InfraError(f'translate_vocab: {e}')
+        # the loaded vocabularies are inconsistent (index not 'last entry wins', non-finite mass, ...): reported, the tables
+        # generated last time stay in place
+        chk.disagreements.append({'op': 'translate_vocab', 'line': 'loaded tables -> Lean', 'impl': str(e)[:500], 'model': 'n/a'})
     chk.lean_build(['PeptVerif.Props.C15', 'PeptVerif.Props.C15Glycan'], DRV)
     lap('build')
     chk.trusted += [
@@ -572,6 +576,32 @@ def run(chk):
     if chk.generated_changed:
         TV.restore_after_scratch_run()
     return chk.finish(classify)
+
+
+def run(chk):
+    """a check never crashes on an odd tree: an exception escaping a stage (library state the harness did not expect) is
+    reported as a failure of the run, with the traceback, not as an infrastructure error"""
+    import traceback
+    _c = chk.correspond
+
+    def safe_correspond(name, exe, cases, line_fn, impl_fn, compare=None, **kw):
+        def cmp(a, b):
+            try:
+                return compare(a, b)
+            except Exception:  # noqa
+                return a == b
+        return _c(name, exe, cases, line_fn, impl_fn, compare=(cmp if compare else None), **kw)
+    chk.correspond = safe_correspond
+    try:
+        return _run(chk)
+    except core.InfraError:
+        raise
+    except Exception:  # noqa
+        tb = traceback.format_exc()
+        chk.failures.append({'oracle': 'check_stage_exception', 'case': None,
+                             'detail': 'an exception escaped a stage of the check while it was evaluating the implementation '
+                                       '(library state or return value the harness did not expect): ' + tb[-1800:]})
+        return chk.finish(classify)
 
 
 def classify(f):
